@@ -45,7 +45,8 @@ CHECKS["C18"] = dict(
           "(mutual inverses, spec mnemonics), dispatch exhaustiveness incl. the escape switch and the try_into().unwrap() domain, "
           "subroutine bias step function at all breakpoints, nesting/stack limits, bounded interpreter recursion on every cycle, and "
           "visitor implementations without catch-all arms; blend takes its ItemVariationData index from the charstring's vsindex, else the "
-          "Private DICT's, and pairs region scalars and deltas position by position (no skip/step adaptor on either side of the zip). Path arithmetic is not decided; operand-stack depth only through the audited indexing/arithmetic sites of C01."),
+          "Private DICT's, and pairs region scalars and deltas position by position (no skip/step adaptor on either side of the zip); the hint mask is read with ceil(stems_len/8) bytes after the stems still on "
+          "the stack were counted, on every path. Path arithmetic is not decided; operand-stack depth only through the audited indexing/arithmetic sites of C01."),
     design_ref="DESIGN.md section 6, C18",
 )
 
@@ -106,13 +107,15 @@ CHECKS["C13"] = dict(
 )
 CHECKS["C16"] = dict(
     category="other",
-    technique="call-graph SCC depth-guard rule on the glyf outline visitor (all OutlineSink instantiations); panic, element-indexing and overflow-arithmetic ledger rules on the outline module; table reading of the simple and composite glyph flag constants against the OpenType specification and of every flag predicate (self & X == X)",
+    technique="call-graph SCC depth-guard rule on the glyf outline visitor (all OutlineSink instantiations); panic, element-indexing and overflow-arithmetic ledger rules on the outline module; table reading of the simple and composite glyph flag constants against the OpenType specification and of every flag predicate (self & X == X); decision-table reading of Contour::calculate_origin; must-pass-through and provenance rules on the simple glyph visitor; layout map from file order to matrix positions; sibling agreement of the two functions that place a component",
     text=("Static decision of the clause 'to a bounded nesting depth' (monotone depth counter, strict step and dominating bound test on every "
           "cycle through visit_outline/visit_composite_glyph_outline), of the panic/indexing/arithmetic discipline of the glyf outline code, and of "
           "two necessary table conditions of flag decoding: the six simple-glyph and twelve composite-glyph flag constants equal the specification "
-          "and each predicate tests the constant it is named after; and of one clause of composition: the accumulated transform reaches the "
-          "components of a nested composite. Contour walking, implied points, coordinate decoding arithmetic and component offset scaling are "
-          "not decided."),
+          "and each predicate tests the constant it is named after; of composition: the accumulated transform reaches the components of a "
+          "nested composite, the 2x2 transform entries reach the matrix in the specification's positions, outline and bounding box both honour "
+          "SCALED_COMPONENT_OFFSET; and of contour walking: the start point and index range of a contour follow the on/off-curve decision table, "
+          "the closing-edge look-ahead wraps modulo the contour length, every contour is one move_to..close sub-path, every point is "
+          "transformed exactly once. Coordinate decoding arithmetic and the numeric values of offsets and scales are not decided."),
     design_ref="DESIGN.md section 6 (C16) and 11.2",
 )
 CHECKS["C17"] = dict(
@@ -159,7 +162,8 @@ CHECKS["C03"] = dict(
     technique="memo-key completeness by intra-procedural provenance with closure-capture resolution (parameters used under the miss branch vs parameters in the key), narrowing-cast rule on keys, receiver-shape rule for the base-keyed ReadCache, must-dominate rule on LazyLoad slot stores, field-write audit of loader dependencies, forbidden-callee and RandomState-iteration audit over all call sites, statics table",
     text=("Static decision of history-independence as memo-key completeness for every cache of the crate (entry memos, the base-keyed ReadCache, the "
           "lookup caches, the dotted-circle GlyphCache, the LazyLoad slots of Font; a loader dependency is reset with its slot on every path; the remembered lookup-cache index is the "
-          "length read before the push; no ReadScope is re-based from another scope's data()) and of run-to-run determinism as the absence of clock/env/"
+          "length read before the push; no ReadScope is re-based from another scope's data() and sub-scopes carry base + offset; the dotted-circle cache is pinned to one "
+          "character on both sides) and of run-to-run determinism as the absence of clock/env/"
           "thread/random callees, of unaudited iteration over RandomState-hashed containers and of mutable statics. Equality of values across "
           "histories as such, and determinism of third-party decompressors, are not decided."),
     design_ref="DESIGN.md section 6, C03",
